@@ -2,7 +2,7 @@
 SPECIFICATION Spec
 CONSTANTS
   MaxReq = 3
-  Alphabet <- QueueAlphabetSmall
+  Alphabet <- QueuePlain
   San = TRUE
   ClChk = TRUE
   Threaded = TRUE
